@@ -615,6 +615,14 @@ func (e *SpecEnv) Eval(x *SX) (Term, error) {
 		if err != nil {
 			return a, err
 		}
+		if a.Sort.Kind == KOpaque && x.Op == "as" {
+			tso, _, err := e.reg.prog.ResolveTypeX(e.ss(), e.pk, x.Type)
+			if err != nil {
+				return a, err
+			}
+			_, un := e.ss().BoxFn(tso, a.Sort)
+			return Term{sx(un, a.S), tso}, nil
+		}
 		if a.Sort.Kind != KSum {
 			return a, fmt.Errorf("type test on non-interface sort %s", a.Sort.Name)
 		}
@@ -663,8 +671,17 @@ func autoDeref(a Term) Term {
 	return a
 }
 
+func (e *SpecEnv) derefRef(a Term) Term {
+	if a.Sort.Kind == KOpaque {
+		if tgt, _ := e.ss().RefTarget(a.Sort); tgt != nil {
+			return Term{sx("deref_"+a.Sort.Name, a.S), tgt}
+		}
+	}
+	return a
+}
+
 func (e *SpecEnv) field(a Term, name string) (Term, error) {
-	a = autoDeref(a)
+	a = autoDeref(e.derefRef(a))
 	switch a.Sort.Kind {
 	case KStruct, KRat:
 		if f := a.Sort.FieldByName(name); f != nil {
